@@ -211,7 +211,7 @@ impl Scenario for C19 {
     fn meta(&self) -> Meta {
         Meta {
             level: "exploration",
-            rule: "run = producer chain (genesis period in {4,5,6,8,100}) and a wallet node (real Blockchain + Wallet) that receives every block; 5..40/150 operations from {block paying the wallet key, wallet builds a payment with random amount and fee through Transaction::create, multi-payment, spend everything, ask for more than the balance, zero payment, next block includes the pending wallet transactions, plain block, block that ignores them, competing fork of depth 1 .. prune depth + 2 that replaces the last blocks (reorganisation, ends the strict ledger comparison as the property states it for chains without one; block bodies older than the prune depth in {1, 2, 3, 8} are dropped from memory, so the deeper reorganisations unwind blocks that must be read back from the simulated disk)}. After every operation: available balance == sum of unspent slips and every unspent key is in the slip table; while no reorganisation happened: the wallet's unspent set == the reference ledger's in-window spendable outputs of the key minus the inputs of wallet-built transactions that are not confirmed; every wallet-built transaction has distinct inputs, outputs <= inputs in u128, and validates against the ledger it was built on. One run in ten is the staking family: the wallet of a staking block producer at its own interface - blocks paying it ordinary and stake-typed outputs (Wallet::on_chain_reorganization) and staking transactions of 5000..20000 built with Wallet::create_staking_transaction against stakes of other sizes (the requirement is configuration), so that stakes are assembled from unlocked stake outputs topped up with ordinary ones; the balance/unspent clause and the built-transaction clauses apply. distinct_nontrivial = distinct event sequences with >= 1 spend and >= 1 receive.",
+            rule: "run = producer chain (genesis period in {4,5,6,8,100}) and a wallet node (real Blockchain + Wallet) that receives every block; 5..40/150 operations from {block paying the wallet key, wallet builds a payment with random amount and fee through Transaction::create, multi-payment, spend everything, ask for more than the balance, zero payment, next block includes the pending wallet transactions, plain block, block that ignores them, competing fork of depth 1 .. prune depth + 2 that replaces the last blocks (reorganisation, ends the strict ledger comparison as the property states it for chains without one; block bodies older than the prune depth in {1, 2, 3, 8} are dropped from memory, so the deeper reorganisations unwind blocks that must be read back from the simulated disk)}. After every operation: available balance == sum of unspent slips and every unspent key is in the slip table; while no reorganisation happened: the wallet's unspent set == the reference ledger's in-window spendable outputs of the key minus the inputs of wallet-built transactions that are not confirmed; every wallet-built transaction has distinct inputs, outputs <= inputs in u128, and validates against the ledger it was built on. At the end of every run a fresh wallet is filled through Wallet::update_from_balance_snapshot from the node's Blockchain::get_balance_snapshot for the key (the restore path of lite / browser wallets): it must list exactly the ledger's in-window outputs of the key, and a transaction spending its whole balance must validate. One run in ten is the staking family: the wallet of a staking block producer at its own interface - blocks paying it ordinary and stake-typed outputs (Wallet::on_chain_reorganization) and staking transactions of 5000..20000 built with Wallet::create_staking_transaction against stakes of other sizes (the requirement is configuration), so that stakes are assembled from unlocked stake outputs topped up with ordinary ones; the balance/unspent clause and the built-transaction clauses apply. distinct_nontrivial = distinct event sequences with >= 1 spend and >= 1 receive.",
             real: &["Wallet::on_chain_reorganization/add_slip/delete_slip/remove_old_slips/generate_slips", "Transaction::create/create_with_multiple_payments/sign/validate", "Blockchain::add_block (wind/unwind drive the wallet)"],
             stubs: &["SimIo", "SimConfig", "producer chain builder"],
             assumptions: &["NFTs are not generated; staking only in the wallet-interface family", "a dropped wallet transaction keeps its inputs committed (the property subtracts pending inputs)"],
@@ -468,6 +468,50 @@ impl Scenario for C19 {
                 }
             }
             r.steps += 1;
+        }
+        // restore from a balance snapshot (the entry point a lite / browser wallet uses instead of winding
+        // blocks): a fresh wallet filled from the node's snapshot for this key lists exactly the ledger's in-window
+        // outputs of the key, and what it builds from them validates
+        if r.violations.is_empty() && wn.tip().0 > 1 {
+            use saito_core::core::consensus::wallet::Wallet;
+            let snap = wn.bc.get_balance_snapshot(vec![wkey.pk], &wn.cfg);
+            let mut fresh = Wallet::new(wkey.sk, wkey.pk);
+            fresh.update_from_balance_snapshot(snap, None);
+            r.fault("wallet_restored_from_balance_snapshot", 1);
+            let tip_id = wn.tip().0;
+            let mut want: Vec<UtxoKey> = wn
+                .bc
+                .utxoset
+                .iter()
+                .filter(|(k, v)| **v && k[..33] == wkey.pk[..] && k[58] != 9 && u64::from_be_bytes(k[33..41].try_into().unwrap()) >= tip_id.saturating_sub(gp))
+                .map(|(k, _)| *k)
+                .collect();
+            want.sort();
+            let mut got: Vec<UtxoKey> = fresh.unspent_slips.iter().cloned().collect();
+            got.sort();
+            let sum: u128 = fresh.unspent_slips.iter().filter_map(|k| fresh.slips.get(k)).map(|s| s.amount as u128).sum();
+            if want != got {
+                r.violate("C19|snapshot|unspent-set-differs-from-ledger", format!("a wallet restored from the node's balance snapshot lists {} unspent outputs, the ledger has {} in-window outputs for the key", got.len(), want.len()));
+            } else if sum != fresh.get_available_balance() as u128 {
+                r.violate("C19|snapshot|balance-differs-from-unspent-sum", format!("restored wallet: balance {} but unspent outputs sum to {}", fresh.get_available_balance(), sum));
+            } else if fresh.get_available_balance() > 0 {
+                let non_normal = fresh.unspent_slips.iter().filter(|k| k[58] != 0).count();
+                if non_normal > 0 {
+                    r.probe("snapshot_with_non_ordinary_outputs");
+                }
+                let amount = fresh.get_available_balance();
+                if let Ok(mut tx) = Transaction::create(&mut fresh, c.keys[2].pk, amount, 0, false, None, tip_id, gp) {
+                    tx.timestamp = c.tip_rec().ts + 77;
+                    tx.sign(&wkey.sk);
+                    tx.generate(&c.keys[0].pk, 0, 0);
+                    if tx.from.iter().any(|s| s.amount > 0) && !tx.validate(&wn.bc.utxoset, &wn.bc, true) {
+                        r.violate(
+                            "C19|snapshot|built-tx-does-not-validate",
+                            format!("a transaction spending the whole balance ({}) of a wallet restored from the balance snapshot ({} outputs, {} of them not of the ordinary type) does not validate against the ledger", amount, got.len(), non_normal),
+                        );
+                    }
+                }
+            }
         }
         if spends > 0 && receives > 0 {
             let mut d = Digest::new();
